@@ -7,7 +7,12 @@
      Awaiting --first error answer--> Errored --first lookup reports it--> Gone        (destinations keep reporting it)
 
    - an accepted add returns an id larger than every id seen before and writes exactly the one command of its
-     kind carrying the caller's arguments, the client id and that id; a rejected add writes nothing;
+     kind carrying the caller's arguments, the client id and that id; a rejected add writes nothing, and an add is only
+     rejected for a reason: IllegalArgument only for illegal arguments (a counter key / label over its limit, a command that
+     does not fit the 512-byte command buffer - one that fits exactly is legal), IllegalState only while the ring is full,
+     Closed only once the client is closed;
+   - calling the public close() of a publication handle writes nothing and leaves the registration alone: the later drop
+     still writes its one Remove command;
    - a lookup answers NotReady (destinations: false) while Awaiting within the driver time-out, NoResponse after it;
      after the first matching ready answer it yields a handle, the same one on every lookup while it is held; after
      an error answer it reports the driver's code once; lookups never write commands;
@@ -138,7 +143,18 @@ Definition c09_step (c0 tdrv : Z) (full : bool) (q : ost) (o : op) (x : out) : v
              match cmds with [c] => cmd_eqb c (Cmd (add_cmd_type k a1) c0 id (add_cmd_args k a1 a2 a3)) | _ => false end
           then Next (set_qmax id (set_regs (q_regs q ++ [(k, id, LAwait (q_now q) a1 a2)]) q))
           else Bad
-      | Err _ => match cmds with [] => Next q | _ => Bad end
+      | Err e =>
+          match cmds with
+          | [] =>
+              if match e with
+                 | IllegalArg => add_illegal k a1 a2 a3
+                 | IllegalState => full
+                 | Closed => q_closed q
+                 | _ => true
+                 end
+              then Next q else Bad
+          | _ => Bad
+          end
       | _ => Bad
       end
   | Find k r' =>
@@ -225,6 +241,8 @@ Definition c09_step (c0 tdrv : Z) (full : bool) (q : ost) (o : op) (x : out) : v
       end
   | Tick d => Next (mkO (q_now q + d) (q_closed q) (q_regs q) (q_max q) (q_hmax q) (q_close_sent q))
   | SetDriverHb _ | SetHbCounter _ | SetRingFull _ => Next q
+  | CloseHandle _ _ =>
+      match r with Panic | Hang | Crash => Bad | _ => match cmds, cbs with [], [] => Next q | _, _ => Bad end end
   | DoWork b =>
       match r with
       | Panic | Hang | Crash => Stop
